@@ -34,12 +34,12 @@ ASSUMPTIONS = [
 ]
 
 NAME = "k"
-_TMP = re.compile(r"\.tmp-[0-9a-zA-Z_-]+$")
+_TMP = re.compile(r"[0-9a-f]{32}")
 
 
 def norm(rel, aid):
     # temporary names are unique per writer and differ from run to run
-    return _TMP.sub(".tmp-A%d" % aid, rel)
+    return _TMP.sub("A%d" % aid, rel)
 
 
 def _crop(d):
